@@ -10,6 +10,7 @@ CONSTANTS
   Cap = 2
   Buffered = TRUE
   Gaps = "all"
+  DropExit = FALSE
   KeepData = TRUE
   ExternalProg <- NoExternal
   Emit = TRUE
